@@ -33,6 +33,9 @@ def checks_for(meta, patch):
     return sorted(ids)
 
 
+ONLY = []
+
+
 def run_seed(name, tier):
     d = os.path.join(SEEDED, name)
     meta = json.load(open(os.path.join(d, "meta.json")))
@@ -45,7 +48,7 @@ def run_seed(name, tier):
         subprocess.run(["git", "-C", wt, "apply", os.path.join(d, "patch.diff")], check=True, capture_output=True)
         scratch = tempfile.mkdtemp(prefix="vmx-ev-", dir="/tmp")
         env = dict(os.environ, VERIF_FINAM_SRC=os.path.join(wt, "src"), VERIF_EVIDENCE_DIR=scratch, VERIF_REPLAY_DIR=os.path.join(scratch, "replay"))
-        for cid in checks_for(meta, patch):
+        for cid in [c for c in checks_for(meta, patch) if not ONLY or c in ONLY]:
             p = subprocess.run([os.path.join(VERIF, "check"), cid, tier], env=env, capture_output=True, text=True, timeout=3600)
             kinds = sorted(set(re.findall(r"^  case \S+: (\w+):", p.stdout, flags=re.M)))
             res[cid] = dict(rc=p.returncode, kinds=kinds[:4])
@@ -67,12 +70,18 @@ def main():
             jobs = int(args.pop(0))
         elif k == "--tier":
             tier = args.pop(0)
+        elif k == "--only":
+            ONLY.extend(args.pop(0).split(","))
     names = args or sorted(n for n in os.listdir(SEEDED) if os.path.isfile(os.path.join(SEEDED, n, "patch.diff")))
     path = os.path.join(SEEDED, "MATRIX.json")
     matrix = json.load(open(path)) if os.path.exists(path) else {}
     with ThreadPoolExecutor(jobs) as ex:
         for name, r in ex.map(lambda n: run_seed(n, tier), names):
-            matrix[name] = r
+            if ONLY and name in matrix:
+                matrix[name]["results"].update(r["results"])
+                matrix[name]["caught_by"] = sorted(c for c, x in matrix[name]["results"].items() if x["rc"] == 1)
+            else:
+                matrix[name] = r
     json.dump(matrix, open(path, "w"), indent=1, sort_keys=True)
     missed = [n for n in names if not matrix[n]["caught_by"]]
     print(f"{len(names)} seeds, {len(missed)} not caught: {missed}")
